@@ -13,11 +13,19 @@
       [hash k mod max cap 1] (l.903-907).  [hash_empty]/[hash_tomb] are the hashes
       of the two placeholder cells, which grow_impl re-inserts like every other
       old cell (l.491);
-    - [keq] is the equality used by the code on keys (array_eq); [nanlike k] says
-      that key [k] also compares equal to the two placeholder cells (all NaNs are
-      equal under array_eq, and the placeholders of number keys are NaNs).
-      [get] (l.613) and [remove_impl] (l.643) compare [key == cell] BEFORE
-      testing for a placeholder; [insert_impl] tests for placeholders first.
+    - [keq] is the equality used by the code on keys (array_eq).
+    - [fixed = true] is the CURRENT code.  [fixed = false] is the code before the repairs
+      d33ad92 (get / remove_impl compared [key == cell] BEFORE testing for a placeholder;
+      [nanlike k] says that key [k] compares equal to the two placeholder cells: all NaNs are
+      equal under array_eq and the placeholders of number keys are NaNs), 1d73a86 (Array::drop's
+      early return left the keys alone), ca07ac6 (MapKeys::join renumbered the rows in discovery
+      order) and 5017b06 (Array::map removed replaced rows in discovery order).  The old
+      behaviour is kept for the [*_refuted_pre] records of Proofs/MapPre.v only; with
+      [fixed = true] nothing depends on [nanlike].
+    - A stored key is always a [Key] cell: keys one of whose elements is bit-identical to a
+      placeholder (f64 0x7ff8000000000001 / ...02, also as the real part of a complex number;
+      the characters U+2FFFF / U+2FFFE; recursively inside boxes: is_any_empty_cell /
+      is_any_tombstone) read back as placeholder cells and are outside the model.
 
     Not modelled: key/value coercion (coerce_values), zero-width keys
     (key_row_len = 0), the fix stack, rank-0 key tables, negative take/drop
@@ -73,6 +81,7 @@ Variable key : Type.
 Variable val : Type.
 Variable keq : key -> key -> bool.
 Variable nanlike : key -> bool.
+Variable fixed : bool.
 Variable hash : key -> N.
 Variable hash_empty : N.
 Variable hash_tomb : N.
@@ -90,18 +99,25 @@ Definition cell_eqk (c : cellk) (k : key) : bool :=
 Definition cell_is_key (c : cellk) (k : key) : bool :=
   match c with Key k' => keq k k' | _ => false end.
 
-(** MapKeys::get, l.599-624: at most [cap] probes, stops on wrap-around *)
+(** MapKeys::get, l.599-626: at most [cap] probes, stops on wrap-around.  Current code:
+    empty cell -> None; not a tombstone and equal -> found; (before d33ad92: equal -> found;
+    empty cell -> None) *)
 Fixpoint get_loop (fuel : nat) (m : mkk) (k : key) (start i : nat) : option nat :=
   match fuel with
   | 0 => None
   | S fuel =>
     let c := nth i (cells m) Empty in
-    if cell_eqk c k then Some (nth i (idx m) 0)
-    else match c with
-         | Empty => None
-         | _ => let i' := S i mod cap m in
-                if i' =? start then None else get_loop fuel m k start i'
-         end
+    let next := let i' := S i mod cap m in
+                if i' =? start then None else get_loop fuel m k start i' in
+    if fixed then
+      match c with
+      | Empty => None
+      | Tomb => next
+      | Key k' => if keq k k' then Some (nth i (idx m) 0) else next
+      end
+    else
+      if cell_eqk c k then Some (nth i (idx m) 0)
+      else match c with Empty => None | _ => next end
   end.
 Definition get (m : mkk) (k : key) : option nat :=
   if length (cells m) =? 0 then None                       (* l.601 *)
@@ -188,19 +204,24 @@ Fixpoint insert_f (fuel : nat) (m : mkk) (k : key) (index : nat) : mkk * option 
   end.
 Definition insert := insert_f 4.
 
-(** remove_impl, l.626-658 *)
+(** remove_impl, l.628-663 (same order of tests as get) *)
 Fixpoint rem_loop (fuel : nat) (m : mkk) (k : key) (start i : nat) : mkk * option nat :=
   match fuel with
   | 0 => (m, None)
   | S fuel =>
     let c := nth i (cells m) Empty in
-    if cell_eqk c k then
-      (MK (set_nth i Tomb (cells m)) (set_nth i 0 (idx m)) (len m - 1), Some (nth i (idx m) 0))
-    else match c with
-         | Empty => (m, None)
-         | _ => let i' := S i mod cap m in
-                if i' =? start then (m, None) else rem_loop fuel m k start i'
-         end
+    let hit := (MK (set_nth i Tomb (cells m)) (set_nth i 0 (idx m)) (len m - 1), Some (nth i (idx m) 0)) in
+    let next := let i' := S i mod cap m in
+                if i' =? start then (m, None) else rem_loop fuel m k start i' in
+    if fixed then
+      match c with
+      | Empty => (m, None)
+      | Tomb => next
+      | Key k' => if keq k k' then hit else next
+      end
+    else
+      if cell_eqk c k then hit
+      else match c with Empty => (m, None) | _ => next end
   end.
 Definition remove (m : mkk) (k : key) : mkk * option nat :=
   rem_loop (cap m) m k (hstart k (cap m)) (hstart k (cap m)).
@@ -254,14 +275,20 @@ Definition mk_take (m : mkk) (n : nat) : mkk :=
 
 Definition dec_above (r : nat) (is : list nat) : list nat := map (fun j => if r <? j then j - 1 else j) is.
 
-(** MapKeys::join, l.798-827: returns the replaced row indices in discovery order *)
+Fixpoint ins_desc (x : nat) (l : list nat) : list nat :=
+  match l with [] => [x] | y :: t => if y <=? x then x :: l else y :: ins_desc x t end.
+Definition sort_desc (l : list nat) : list nat := fold_right ins_desc [] l.
+
+(** MapKeys::join, l.802-834: returns the replaced row indices.  Current code renumbers the rows
+    for the highest replaced row first (before ca07ac6: in discovery order) *)
 Definition mk_join (a b : mkk) : mkk * list nat :=
   let shifted := map (fun i => i + len a) (idx b) in
   let to_insert := sort_by_snd (binds (MK (cells b) shifted (len b))) in
   let '(a', rem) := fold_left (fun acc ki =>
         let '(m', r) := insert (fst acc) (fst ki) (snd ki) in
         (m', snd acc ++ match r with Some i => [i] | None => [] end)) to_insert (a, []) in
-  (MK (cells a') (fold_left (fun is r => dec_above r is) rem (idx a')) (len a'), rem).
+  let order := if fixed then sort_desc rem else rem in
+  (MK (cells a') (fold_left (fun is r => dec_above r is) order (idx a')) (len a'), rem).
 
 (** ---- value level: the table together with the rows of the array *)
 Definition vmap : Type := mkk * list val.
@@ -317,27 +344,26 @@ Definition v_rotate (v : vmap) (by_ : Z) : vmap :=
 Definition v_take (v : vmap) (n : nat) : option vmap :=
   let '(m, rows) := v in
   if length rows <? n then None else Some (mk_take m n, firstn n rows).
-(** drop with a non-negative amount (dyadic/structure.rs:724-741 and 803-814):
-    when the amount is at least the row count the early return empties the rows and
-    leaves the key table as it is *)
+(** drop with a non-negative amount (dyadic/structure.rs:724-752 and 814-825): when the amount
+    is at least the row count an early return empties the rows; it now drops the keys as
+    well (before 1d73a86 it left the key table as it was) *)
 Definition v_drop (v : vmap) (n : nat) : vmap :=
   let '(m, rows) := v in
-  if length rows <=? n then (m, []) else (mk_drop m n, skipn n rows).
-(** Array::map, l.50-90, on a key list and a value list of the same length *)
+  if length rows <=? n then ((if fixed then mk_drop m n else m), []) else (mk_drop m n, skipn n rows).
+(** Array::map, l.50-92, on a key list and a value list of the same length: replaced rows are
+    removed highest first (before 5017b06: in reverse discovery order) *)
 Definition v_map (l : list (key * val)) : vmap :=
   let '(m, rem, _) := fold_left (fun acc kx =>
         let '(m, rem, i) := acc in
         let '(m', r) := insert m (fst kx) i in
         (m', rem ++ match r with Some j => [j] | None => [] end, S i)) l (MK [] [] 0, [], 0) in
   fold_left (fun (v : vmap) i => (MK (cells (fst v)) (dec_above i (idx (fst v))) (len (fst v)), remove_nth i (snd v)))
-            (rev rem) (m, map snd l).
+            (if fixed then sort_desc rem else rev rem) (m, map snd l).
 (** join of two maps (dyadic/combine.rs:394-515): rows appended, replaced rows removed
     in descending order *)
-Fixpoint ins_desc (x : nat) (l : list nat) : list nat :=
-  match l with [] => [x] | y :: t => if y <=? x then x :: l else y :: ins_desc x t end.
 Definition v_join (a b : vmap) : vmap :=
   let '(m, rem) := mk_join (fst a) (fst b) in
-  (m, fold_left (fun rows i => remove_nth i rows) (fold_right ins_desc [] rem) (snd a ++ snd b)).
+  (m, fold_left (fun rows i => remove_nth i rows) (sort_desc rem) (snd a ++ snd b)).
 
 (** ---- operation histories *)
 Inductive op : Type :=
@@ -457,11 +483,16 @@ Definition state_eqb (v : vmap N N) (cs : list (cell N)) (is : list nat) (n : na
 (** one observed step of the implementation: operation, output, dump after the step *)
 Record obs := Obs { o_op : @op N N; o_out : @out N N; o_cells : list (cell N); o_idx : list nat; o_len : nat; o_rows : list N }.
 
+(** -0.0 (coded 1000) and 0.0 (coded 0) are the same key with two representations *)
+Definition keq_negzero (a b : N) : bool :=
+  N.eqb (if N.eqb a 1000 then 0 else a) (if N.eqb b 1000 then 0 else b).
+
 Section Replay.
-Variable nan : N -> bool.
+Variable keqN : N -> N -> bool.
 Variable tbl : list (N * N).
 Variable he ht : N.
-Definition mstep := step N N N.eqb nan (assoc_hash tbl) he ht.
+(** the tie replays the current code *)
+Definition mstep := step N N keqN (fun _ => false) true (assoc_hash tbl) he ht.
 (** index of the first step at which model and implementation differ *)
 Fixpoint replay (v : vmap N N) (l : list obs) (n : nat) : option nat :=
   match l with
@@ -474,8 +505,8 @@ Fixpoint replay (v : vmap N N) (l : list obs) (n : nat) : option nat :=
 End Replay.
 
 (** agreement of a model run with the association-list spec (executable test) *)
-Definition spec_agrees (nan : N -> bool) (hash : N -> N) (he ht : N) (ops : list (@op N N)) : bool :=
-  let '(v, outs) := run N N N.eqb nan hash he ht (empty_map N N) ops in
+Definition spec_agrees (fixed : bool) (nan : N -> bool) (hash : N -> N) (he ht : N) (ops : list (@op N N)) : bool :=
+  let '(v, outs) := run N N N.eqb nan fixed hash he ht (empty_map N N) ops in
   let '(a, souts) := srun N N N.eqb [] ops in
   list_eqb out_eqb outs souts &&
   list_eqb (fun p q => match fst p, fst q with Some x, Some y => N.eqb x y | _, _ => false end && N.eqb (snd p) (snd q))
